@@ -75,6 +75,19 @@ def run_check(prop_id, tier, family, lean_targets, design_ref="", gen_modules=()
             broken.append("audit:" + "; ".join(f"{t['theorem']} uses {t['axioms']}" for t in bad_axioms))
         if not theorems:
             broken.append(f"audit: no theorem found under TinyFlux.Props.{prop_id}")
+    # thorough tier: independent re-check of the compiled theorems by leanchecker
+    leanchecker = None
+    if ok_thm and tier == "thorough":
+        import subprocess
+
+        try:
+            pr = subprocess.run(["lake", "env", "leanchecker"] + lean_targets, cwd=C.LEAN, capture_output=True,
+                                text=True, timeout=3000)
+            leanchecker = "ok" if pr.returncode == 0 else ("failed: " + (pr.stdout + pr.stderr)[-300:])
+            if pr.returncode != 0:
+                broken.append("leanchecker:" + leanchecker)
+        except Exception as e:  # the tool is optional: absence is not a violation
+            leanchecker = "not run: " + type(e).__name__
     grep_hits = C.source_grep()
     if grep_hits:
         broken.append("forbidden-constructs:" + "; ".join(grep_hits[:5]))
@@ -152,6 +165,7 @@ def run_check(prop_id, tier, family, lean_targets, design_ref="", gen_modules=()
         "axioms_used": sorted({a for t in theorems for a in t["axioms"]}),
         "generated_modules": [{k: r.get(k) for k in ("module", "status")} for r in regen],
         "broken": broken,
+        "leanchecker": leanchecker,
         "evaluations": res.evaluations,
         "distinct_nontrivial": res.distinct,
         "rule": family.rule,
